@@ -345,12 +345,15 @@ def bbox_rule(repo, rep):
         raise AnalysisError("bbox: rectangles.append([fmin, dmin, fmax, dmax]) not found")
     found_mask = False
     for n in ast.walk(fi.node):
-        if isinstance(n, ast.For) and isinstance(n.target, ast.Name):
-            unp = [s_ for s_ in n.body if isinstance(s_, ast.Assign) and isinstance(s_.targets[0], ast.Tuple) and len(s_.targets[0].elts) == 4
-                   and isinstance(s_.value, ast.Name) and s_.value.id == n.target.id]
+        if isinstance(n, ast.For):
+            # the box's four numbers, unpacked in the loop header (normal form: `for (fmin, dmin, fmax, dmax) in rectangles`)
+            unp = [t_ for t_ in ast.walk(n.target) if isinstance(t_, (ast.Tuple, ast.List)) and len(t_.elts) == 4 and all(isinstance(e, ast.Name) for e in t_.elts)]
+            if isinstance(n.target, ast.Name):
+                unp = [s_.targets[0] for s_ in n.body if isinstance(s_, ast.Assign) and isinstance(s_.targets[0], ast.Tuple) and len(s_.targets[0].elts) == 4
+                       and isinstance(s_.value, ast.Name) and s_.value.id == n.target.id]
             if not unp:
                 continue
-            role2 = {e.id: order[i] for i, e in enumerate(unp[0].targets[0].elts) if isinstance(e, ast.Name)}
+            role2 = {e.id: order[i] for i, e in enumerate(unp[0].elts) if isinstance(e, ast.Name)}
             for s_ in n.body:
                 if isinstance(s_, ast.Assign) and len([c for c in ast.walk(s_.value) if isinstance(c, ast.Compare)]) == 4:
                     found_mask = True
@@ -415,8 +418,29 @@ def bbox_rule(repo, rep):
             a_, b_ = pos.get(n.left.id), pos.get(n.comparators[0].id)
             if a_ and b_ and a_[0] != b_[0] and a_[1] in (2, 3) and b_[1] == a_[1] - 2:
                 good.add((a_[0], a_[1]))
-    rets = [unparse(n.value) for n in ast.walk(io.node) if isinstance(n, ast.Return)]
-    if good == {(0, 2), (1, 2), (0, 3), (1, 3)} and sorted(rets) == ["False", "False", "True"]:
+    # shape of the decision: every `return False` is guarded by an If whose test is a disjunction of separating tests only, and the
+    # function otherwise returns True (one guard with four disjuncts, two guards with two each, four guards ... are the same decision)
+    def _sep(c):
+        if isinstance(c, ast.Compare) and len(c.ops) == 1 and isinstance(c.ops[0], ast.LtE) and isinstance(c.left, ast.Name) and isinstance(c.comparators[0], ast.Name):
+            a_, b_ = pos.get(c.left.id), pos.get(c.comparators[0].id)
+            return bool(a_ and b_ and a_[0] != b_[0] and a_[1] in (2, 3) and b_[1] == a_[1] - 2)
+        return False
+    def _atoms(t):
+        return [x for v in t.values for x in _atoms(v)] if isinstance(t, ast.BoolOp) and isinstance(t.op, ast.Or) else [t]
+    shape_ok = True
+    guarded = set()
+    for r_ in [n for n in ast.walk(io.node) if isinstance(n, ast.Return)]:
+        v_ = repo.const(io.module, r_.value) if r_.value is not None else None
+        par_ = getattr(r_, "_parent", None)
+        if v_ is False and isinstance(par_, ast.If) and r_ in par_.body and all(_sep(a) for a in _atoms(par_.test)):
+            for a in _atoms(par_.test):
+                a_ = pos[a.left.id]
+                guarded.add((a_[0], a_[1]))
+        elif v_ is True and (par_ is io.node or (isinstance(par_, ast.If) and r_ in par_.orelse)):
+            pass
+        else:
+            shape_ok = False
+    if good == {(0, 2), (1, 2), (0, 3), (1, 3)} and guarded == good and shape_ok:
         rep.ok("R-C09-2", f"{io.file}:{io.node.lineno} is_overlap", "high edge of one <= low edge of the other, on either axis -> False", "separated (or only touching) rectangles do not overlap")
     else:
         rep.fail("R-C09-2", io.file, io.node.lineno, io.qualname, f"separating tests found: {sorted(good)}", "is_overlap must return False exactly when the rectangles are separated along freq or along dir")
